@@ -169,6 +169,7 @@ def _kindword(low):
     table = [
         ('postcondition not satisfied', 'ensures'),
         ('precondition not satisfied', 'call-precondition'),
+        ('fails to satisfy `callee.requires(args)`', 'call-precondition'),
         ('invariant not satisfied before loop', 'invariant-init'),
         ('invariant not satisfied at end of loop body', 'invariant-preserved'),
         ('invariant not satisfied', 'invariant'),
